@@ -427,6 +427,8 @@ func init() {
 			hp := st.heapGet(key, SArr(SInt, SArr(SInt, SInt)))
 			content := Fresh("abi.packed#content", SArr(SInt, SInt))
 			st.heapSet(key, Store(hp, out.X, content))
+			// ghost: the abstract value of the last packed byte string on this path (`lastpacked()` in specifications)
+			st.Ghost["lastpacked"] = fr.C.bytesVal(content, Num(0), ln)
 			if args, sig, ok := fr.packArgs(st, cc.Args[2]); ok {
 				bv := fr.C.bytesVal(content, Num(0), ln)
 				fr.C.addFact(Eq(bv, App("spec!abipack_"+sig, SInt, append([]*Term{a[1].X}, args...)...)))
